@@ -279,7 +279,7 @@ impl GenState {
             ExtendFromSlice => st.vals = vals!(rng, len_arg(rng, free, n)),
             Extend => {
                 st.vals = vals!(rng, len_arg(rng, free, n));
-                st.b = rng.below(5) as usize;
+                st.b = rng.below(6) as usize;
             }
             MakeContiguous => {
                 st.a = rng.below(8) as usize;
@@ -288,7 +288,7 @@ impl GenState {
             Drain => {
                 st.rs = range_arg(rng, len, n, junk);
                 let sel = st.rs.resolve(len).map(|(a, b)| b - a).unwrap_or(0);
-                st.word = word(rng, sel, b"nblsd", &[10, 10, 2, 1, 1]);
+                st.word = word(rng, sel, b"nblsdrR", &[10, 10, 2, 1, 1, 1, 1]);
                 st.c = 0;
             }
             GetMut | NthFrontMut | NthBackMut | IndexMut | AsMutSlices => {
@@ -305,17 +305,19 @@ impl GenState {
             IterMut | RangeMut => {
                 st.rs = range_arg(rng, len, n, junk);
                 let sel = if op == IterMut { len } else { st.rs.resolve(len).map(|(a, b)| b - a).unwrap_or(0) };
-                st.word = word(rng, sel, b"nblsd", &[10, 10, 2, 2, 1]);
+                st.word = word(rng, sel, b"nblsdrR", &[10, 10, 2, 2, 1, 1, 1]);
+                st.a = rng.weighted(&[4, 1, 1]);
                 st.b = rng.below(2) as usize;
                 st.c = rng.below(3) as usize;
             }
             Iter | Range => {
                 st.rs = range_arg(rng, len, n, junk);
                 let sel = if op == Iter { len } else { st.rs.resolve(len).map(|(a, b)| b - a).unwrap_or(0) };
-                st.word = word(rng, sel, b"nblscd", &[10, 10, 3, 2, 2, 1]);
+                st.word = word(rng, sel, b"nblscdrR", &[10, 10, 3, 2, 2, 1, 1, 1]);
+                st.a = rng.weighted(&[4, 1, 1]);
             }
             IntoIter => {
-                st.word = word(rng, len, b"nblscd", &[10, 10, 2, 2, 1, 1]);
+                st.word = word(rng, len, b"nblscdrR", &[10, 10, 2, 2, 1, 1, 1, 1]);
                 st.c = rng.below(3) as usize;
             }
             New | DropBuf => st.b = rng.below(3) as usize,
@@ -325,7 +327,7 @@ impl GenState {
             }
             FromIter => {
                 st.vals = vals!(rng, len_arg(rng, n, n));
-                st.b = rng.below(4) as usize;
+                st.b = rng.below(5) as usize;
             }
             EqSlice => {
                 st.a = rng.below(8) as usize;
@@ -459,7 +461,7 @@ impl GenState {
             },
             FaultKind::Clone => match st.op {
                 ExtendFromSlice => k.min(n),
-                Extend if st.b % 5 == 3 => k,
+                Extend if st.b % 6 == 3 => k,
                 Fill => n.saturating_sub(1),
                 FillSpare => (n - len.min(n)).saturating_sub(1),
                 CloneTo | CloneFrom | ToVec => len,
@@ -469,10 +471,11 @@ impl GenState {
             FaultKind::Closure => match st.op {
                 FillWith => n,
                 FillSpareWith => n - len.min(n),
+                IntoIter if st.c % 3 == 2 => len,
                 _ => 0,
             },
             FaultKind::Iter => match st.op {
-                Extend if st.b % 5 != 3 => k + 1,
+                Extend if st.b % 6 != 3 => k + 1,
                 FromIter => k + 1,
                 _ => 0,
             },
@@ -496,10 +499,11 @@ impl GenState {
 fn user_kind_for(op: Op, st: &Step, rng: &mut Rng) -> FaultKind {
     match op {
         FillWith | FillSpareWith => FaultKind::Closure,
-        Extend if st.b % 5 != 3 => FaultKind::Iter,
+        Extend if st.b % 6 != 3 => FaultKind::Iter,
         FromIter => FaultKind::Iter,
         CmpBufs | EqSlice | DebugFmt | CrossCmp => FaultKind::Cmp,
         Iter | Range | IterMut | RangeMut => FaultKind::Cmp,
+        IntoIter if st.c % 3 == 2 => FaultKind::Closure,
         IntoIter | Drain => {
             if rng.below(2) == 0 {
                 FaultKind::Clone
